@@ -68,13 +68,6 @@ package boltz
 //@   nosafety
 //@   modifies *
 
-//@ func (*LinkedSetSymbol).AddLink
-//@   props C07
-//@   errflow
-//@   nosafety
-//@   modifies *
-//@   censures[a-successful-repair-writes] result == nil ==> ciDirty
-
 //@ func (*LinkedSetSymbol).AddLinkS
 //@   props C07
 //@   errflow
@@ -82,12 +75,6 @@ package boltz
 //@   modifies *
 
 //@ func (*LinkedSetSymbol).RemoveCompoundLink
-//@   props C07
-//@   errflow
-//@   nosafety
-//@   modifies *
-
-//@ func (*LinkedSetSymbol).RemoveLink
 //@   props C07
 //@   errflow
 //@   nosafety
@@ -121,17 +108,21 @@ package boltz
 //@   props C07 C05
 //@   errflow
 //@   nosafety
-//@   assume bucket.ErrorHolderImpl != nil
+//@   assume bucket.ErrorHolderImpl != nil && bucket.Bucket != nil
 //@   modifies bucket.Err, bktHas[bucket.Bucket], bktVal[bucket.Bucket]
 //@   ensures[holder] bucket.Err != nil ==> result1 != nil
+//@   ensures[removed-if-present] result1 == nil ==> bktHas[bucket.Bucket] == sto(old(bktHas[bucket.Bucket]), prepend(fieldType, str(value)), old(bktHas[bucket.Bucket][prepend(fieldType, str(value))]) && old(bktSub[bucket.Bucket][prepend(fieldType, str(value))]) != 0) && result0 == old(bktHas[bucket.Bucket][prepend(fieldType, str(value))])
+//@   ensures[failure-keeps-the-bucket] result1 != nil ==> bktHas[bucket.Bucket] == old(bktHas[bucket.Bucket])
 
 //@ func (*TypedBucket).CheckAndSetListEntry
 //@   props C07 C05
 //@   errflow
 //@   nosafety
-//@   assume bucket.ErrorHolderImpl != nil
+//@   assume bucket.ErrorHolderImpl != nil && bucket.Bucket != nil
 //@   modifies bucket.Err, bktHas[bucket.Bucket], bktVal[bucket.Bucket]
 //@   ensures[holder] bucket.Err != nil ==> result1 != nil
+//@   ensures[added-if-absent] result1 == nil ==> bktHas[bucket.Bucket] == sto(old(bktHas[bucket.Bucket]), prepend(fieldType, str(value)), true) && result0 == !old(bktHas[bucket.Bucket][prepend(fieldType, str(value))]) && (result0 ==> bktSub[bucket.Bucket][prepend(fieldType, str(value))] == 0)
+//@   ensures[failure-keeps-the-bucket] result1 != nil ==> bktHas[bucket.Bucket] == old(bktHas[bucket.Bucket])
 
 //@ func (*TypedBucket).Copy
 //@   props C07
@@ -183,35 +174,59 @@ package boltz
 //@   modifies *
 
 //@ func (*linkCollectionImpl).AddLink
-//@   props C07
+//@   props C07 C05
 //@   errflow
 //@   nosafety
 //@   modifies *
+//@   assume[link-sets-hold-plain-keys-only] forallStr(k, sel(bktSub[lcOwn(collection, tx, str(id))], k) == 0)
+//@   ensures[missing-entity-is-an-error] !entPresent(lcFS(collection), str(id)) ==> result1 != nil && plainSame()
+//@   ensures[linked-on-both-sides] result1 == nil ==> lkListed(lcOwn(collection, tx, str(id)), str(key)) && lkListed(lcFar(collection, tx, str(key)), str(id))
+//@   ensures[nothing-else-changes] lkOnly2(lcOwn(collection, tx, str(id)), str(key), lcFar(collection, tx, str(key)), str(id))
 
 //@ func (*linkCollectionImpl).AddLinks
-//@   props C07
+//@   props C07 C05
 //@   errflow
 //@   nosafety
 //@   modifies *
+//@   ensures[missing-entity-is-an-error] !entPresent(lcFS(collection), id) ==> result != nil && plainSame()
+//@   ensures[every-key-linked-on-both-sides] result == nil ==> forall(j, 0 <= j && j < len(keys) ==> lkListed(lcOwn(collection, tx, id), keys[j]) && lkListed(lcFar(collection, tx, keys[j]), id))
+//@   invariant[bucket] 1: fieldBucket != nil && fieldBucket.ErrorHolderImpl != nil && fieldBucket.Bucket != nil && ref(fieldBucket.Bucket) == lcOwn(collection, tx, id) && entPresent(lcFS(collection), id) && str(byteId) == id
+//@   invariant[own-side] 1: forall(j, 0 <= j && j <= rangeindex ==> lkListed(lcOwn(collection, tx, id), keys[j]))
+//@   invariant[far-side] 1: forall(j, 0 <= j && j <= rangeindex ==> lkListed(lcFar(collection, tx, keys[j]), id))
 
 //@ func (*linkCollectionImpl).EntityDeleted
-//@   props C07
+//@   props C07 C05 C06
 //@   errflow
 //@   nosafety
 //@   modifies *
+//@   ensures[missing-entity-is-an-error] !entPresent(lcFS(collection), id) ==> result != nil
+//@   ensures[every-linked-entity-forgets-the-deleted-one] enumKeys() && (result == nil ==> forallStr(x, old(lkListed(lcOwn(collection, tx, id), x)) && entPresent(lcOS(collection), x) ==> !lkListed(lcFar(collection, tx, x), id)))
+//@   invariant[cursor] 1: cursor != nil && bcKeys[cursor] == keysOf(bcSet[cursor]) && bcLen[cursor] == keyCnt(bcSet[cursor]) && 0 <= bcPos[cursor] && bcPos[cursor] <= bcLen[cursor] && (val != nil) == (bcPos[cursor] < bcLen[cursor]) && (val != nil ==> str(val) == sel(bcKeys[cursor], bcPos[cursor]))
+//@   invariant[all-links-are-visited] 1: str(bId) == id && forallStr(x, old(lkListed(lcOwn(collection, tx, id), x)) ==> sel(bcSet[cursor], prepend(TypeString, x)))
+//@   invariant[visited-ones-forgot] 1: forall(i, 0 <= i && i < bcPos[cursor] ==> (entPresent(lcOS(collection), untag(sel(bcKeys[cursor], i))) ==> !lkListed(lcFar(collection, tx, untag(sel(bcKeys[cursor], i))), id)), sel(bcKeys[cursor], i))
 
 //@ func (*linkCollectionImpl).RemoveLink
-//@   props C07
+//@   props C07 C05
 //@   errflow
 //@   nosafety
 //@   modifies *
+//@   assume[link-sets-hold-plain-keys-only] forallStr(k, sel(bktSub[lcOwn(collection, tx, str(id))], k) == 0)
+//@   ensures[missing-entity-is-an-error] !entPresent(lcFS(collection), str(id)) ==> result1 != nil && plainSame()
+//@   ensures[unlinked-on-both-sides] result1 == nil ==> !lkListed(lcOwn(collection, tx, str(id)), str(key)) && (entPresent(lcOS(collection), str(key)) ==> !lkListed(lcFar(collection, tx, str(key)), str(id)))
+//@   ensures[nothing-else-changes] lkOnly2(lcOwn(collection, tx, str(id)), str(key), lcFar(collection, tx, str(key)), str(id))
+//@   ensures[a-missing-far-entity-changes-only-the-near-side] !entPresent(lcOS(collection), str(key)) ==> lkOnly1(lcOwn(collection, tx, str(id)), str(key))
 //@   censures[a-successful-repair-writes] result1 == nil ==> ciDirty
 
 //@ func (*linkCollectionImpl).RemoveLinks
-//@   props C07
+//@   props C07 C05
 //@   errflow
 //@   nosafety
 //@   modifies *
+//@   ensures[missing-entity-is-an-error] !entPresent(lcFS(collection), id) ==> result != nil && plainSame()
+//@   ensures[every-key-unlinked-on-both-sides] result == nil ==> forall(j, 0 <= j && j < len(keys) ==> !lkListed(lcOwn(collection, tx, id), keys[j]) && (entPresent(lcOS(collection), keys[j]) ==> !lkListed(lcFar(collection, tx, keys[j]), id)))
+//@   invariant[bucket] 1: fieldBucket != nil && fieldBucket.ErrorHolderImpl != nil && fieldBucket.Bucket != nil && ref(fieldBucket.Bucket) == lcOwn(collection, tx, id) && entPresent(lcFS(collection), id) && str(byteId) == id
+//@   invariant[own-side] 1: forall(j, 0 <= j && j <= rangeindex ==> !lkListed(lcOwn(collection, tx, id), keys[j]))
+//@   invariant[far-side] 1: forall(j, 0 <= j && j <= rangeindex ==> (entPresent(lcOS(collection), keys[j]) ==> !lkListed(lcFar(collection, tx, keys[j]), id)))
 
 //@ func (*linkCollectionImpl).SetLinks
 //@   props C07
@@ -220,28 +235,46 @@ package boltz
 //@   modifies *
 
 //@ func (*linkCollectionImpl).checkAndLink
-//@   props C07
+//@   props C07 C05
 //@   errflow
 //@   nosafety
 //@   modifies *
+//@   assume[a-usable-field-bucket] fieldBucket != nil && fieldBucket.ErrorHolderImpl != nil && fieldBucket.Bucket != nil
+//@   assume[link-sets-hold-plain-keys-only] forallStr(k, sel(bktSub[fieldBucket.Bucket], k) == 0)
+//@   ensures[both-sides-linked] result1 == nil ==> lkListed(fieldBucket.Bucket, str(associatedId)) && lkListed(lcFar(collection, tx, str(associatedId)), str(id))
+//@   ensures[reports-whether-the-link-is-new] result1 == nil ==> result0 == !old(lkListed(fieldBucket.Bucket, str(associatedId)))
+//@   ensures[nothing-else-changes] lkOnly2(fieldBucket.Bucket, str(associatedId), lcFar(collection, tx, str(associatedId)), str(id))
 
 //@ func (*linkCollectionImpl).checkAndUnlink
-//@   props C07
+//@   props C07 C05
 //@   errflow
 //@   nosafety
 //@   modifies *
+//@   assume[a-usable-field-bucket] fieldBucket != nil && fieldBucket.ErrorHolderImpl != nil && fieldBucket.Bucket != nil
+//@   assume[link-sets-hold-plain-keys-only] forallStr(k, sel(bktSub[fieldBucket.Bucket], k) == 0)
+//@   ensures[both-sides-unlinked] result1 == nil ==> !lkListed(fieldBucket.Bucket, str(associatedId)) && (entPresent(lcOS(collection), str(associatedId)) ==> !lkListed(lcFar(collection, tx, str(associatedId)), str(id)))
+//@   ensures[reports-whether-a-link-was-removed] result1 == nil ==> result0 == old(lkListed(fieldBucket.Bucket, str(associatedId)))
+//@   ensures[nothing-else-changes] lkOnly2(fieldBucket.Bucket, str(associatedId), lcFar(collection, tx, str(associatedId)), str(id))
+//@   ensures[a-missing-far-entity-changes-only-the-near-side] !entPresent(lcOS(collection), str(associatedId)) ==> lkOnly1(fieldBucket.Bucket, str(associatedId))
 
 //@ func (*linkCollectionImpl).link
-//@   props C07
+//@   props C07 C05
 //@   errflow
 //@   nosafety
 //@   modifies *
+//@   assume[a-usable-field-bucket] fieldBucket != nil && fieldBucket.ErrorHolderImpl != nil && fieldBucket.Bucket != nil
+//@   ensures[both-sides-linked] result == nil ==> lkListed(fieldBucket.Bucket, str(associatedId)) && lkListed(lcFar(collection, tx, str(associatedId)), str(id))
+//@   ensures[nothing-else-changes] lkOnly2(fieldBucket.Bucket, str(associatedId), lcFar(collection, tx, str(associatedId)), str(id))
 
 //@ func (*linkCollectionImpl).unlink
-//@   props C07
+//@   props C07 C05
 //@   errflow
 //@   nosafety
 //@   modifies *
+//@   assume[a-usable-field-bucket] fieldBucket != nil && fieldBucket.ErrorHolderImpl != nil && fieldBucket.Bucket != nil
+//@   ensures[both-sides-unlinked] result == nil ==> !lkListed(fieldBucket.Bucket, str(associatedId)) && (entPresent(lcOS(collection), str(associatedId)) ==> !lkListed(lcFar(collection, tx, str(associatedId)), str(id)))
+//@   ensures[nothing-else-changes] lkOnly2(fieldBucket.Bucket, str(associatedId), lcFar(collection, tx, str(associatedId)), str(id))
+//@   ensures[a-missing-far-entity-changes-only-the-near-side] !entPresent(lcOS(collection), str(associatedId)) ==> lkOnly1(fieldBucket.Bucket, str(associatedId))
 
 //@ func (*mutateContext).runPreCommitActions
 //@   props C07
